@@ -86,12 +86,20 @@ structure World where
   ttl : Int              -- the `ttlMs` the server puts on `tools/list` results
   server : Tools
   cache : List Page
+  bad : List Bytes := []           -- tools the server LISTS with invalid x-mcp-header annotations (a foreign server; the SDK's
+                                   -- own `AddTool` refuses them): `filterValidTools` drops them from every tools/list result
+  serverB : Tools := []            -- the tools of a SECOND `Server` behind the same handler (`getServer` chooses by URL path)
   gen : Nat := 0                   -- `methodCache.generation`: counts invalidations
   pend : Option Pending := none    -- the listing in flight, if any (the harness keeps at most one)
 
 /-- `cacheEntry.isValid` together with the `GetTTLMs() <= 0` test of `methodCache.get`. -/
 def pageFresh (now : Nat) (pg : Page) : Bool :=
   decide (pg.ttl > 0) && decide ((now : Int) - (pg.recv : Int) < pg.ttl)
+
+/-- A `tools/list` result as `ClientSession.ListTools` hands it on and caches it: the server's page (`paginateList`) without
+the tools whose annotations are invalid (`filterValidTools`, applied before `putIfCurrent`, under every protocol version). -/
+def clientPage (w : World) (k : Bytes) : Tools × Bytes :=
+  ((serverPage w.server w.pageSize k).1.filter (fun t => !w.bad.contains t.1), (serverPage w.server w.pageSize k).2)
 
 inductive SeqOp where
   | setTool (name : Bytes) (p : Props)   -- server: AddTool
@@ -105,6 +113,11 @@ inductive SeqOp where
   | listRecv                             -- the response of the listing in flight reaches the client: putIfCurrent, return
   | look (name : Bytes)                  -- client: lookupTool
   | call (name : Bytes) (a : Args)       -- client: CallTool
+  | setBad (name : Bytes)                -- the server starts listing the tool with INVALID annotations (foreign server)
+  | clearBad (name : Bytes)              -- … lists it as registered again
+  | setToolB (name : Bytes) (p : Props)  -- the second server behind the handler: AddTool
+  | delToolB (name : Bytes)              -- … RemoveTools
+  | callB (name : Bytes) (a : Args)      -- a second client connects to the second server's path, lists all its tools, calls
 
 /-- The outcome of a call: the handler ran once with the arguments sent; the call succeeded otherwise; it failed with a
 JSON-RPC code, if any (`quiet`: no handler ran). -/
@@ -154,6 +167,12 @@ def callWith (c : B64) (w : World) (cdef : Option Props) (name : Bytes) (a : Arg
 def callModel (c : B64) (w : World) (name : Bytes) (a : Args) : ParamHdrs × CallOut :=
   callWith c w (clientLookup w name) name a
 
+/-- A call that goes to the SECOND server of the handler (`getServer(req)` returns it for this request's path), by a client
+that has just listed that server's tools: the client mirrors, and the server validates against, THAT server's definition —
+whatever the first server registered under the same name, whatever was called before. -/
+def callModelB (c : B64) (w : World) (name : Bytes) (a : Args) : ParamHdrs × CallOut :=
+  callWith c { w with server := w.serverB } (toolDef w.serverB name) name a
+
 def staleAll (cache : List Page) : List Page := cache.map (fun pg => { pg with cur := false })
 
 def stalePend (p : Option Pending) : Option Pending := p.map (fun q => { q with cur := false })
@@ -161,7 +180,7 @@ def stalePend (p : Option Pending) : Option Pending := p.map (fun q => { q with 
 /-- `ListTools` up to the point where the request has been answered by the server (cache miss: `gen()` is read, the request
 sent; the answer is the server's page as of now, with the `ttlMs` of now). -/
 def sendList (w : World) (k : Bytes) : World × SeqObs :=
-  let f := serverPage w.server w.pageSize k
+  let f := clientPage w k
   ({ w with pend := some { key := k, gen := w.gen, tools := f.1, next := f.2, ttl := w.ttl, cur := true } }, .sent)
 
 /-- The response in flight arrives: `putIfCurrent(gen, cursor, result)` — stored (replacing the page of that cursor, most
@@ -176,7 +195,7 @@ def recvList (w : World) (now : Nat) (p : Pending) : World × SeqObs :=
 
 /-- `putIfCurrent`: the page replaces the one cached under its cursor and is the most recent. -/
 def putPage (w : World) (now : Nat) (k : Bytes) : World × SeqObs :=
-  let f := serverPage w.server w.pageSize k
+  let f := clientPage w k
   ({ w with cache := { key := k, tools := f.1, next := f.2, ttl := w.ttl, recv := now, cur := true } ::
       w.cache.filter (fun pg => pg.key != k) },
    .listed false f.1 f.2)
@@ -190,7 +209,7 @@ def stepW (c : B64) (w : World) (now : Nat) : SeqOp → World × SeqObs
   | .notified => ({ w with cache := [], gen := w.gen + 1 }, .ok)   -- `invalidate`: clear, and a new generation
   | .list k =>
     if !w.newProto then
-      let f := serverPage w.server w.pageSize k
+      let f := clientPage w k
       (w, .listed false f.1 f.2)
     else match w.cache.find? (fun pg => pg.key == k) with
       | some pg => if pageFresh now pg then (w, .listed true pg.tools pg.next) else putPage w now k
@@ -211,6 +230,13 @@ def stepW (c : B64) (w : World) (now : Nat) : SeqOp → World × SeqObs
   | .call n a =>
     let r := callModel c w n a
     (w, .called r.1 r.2)
+  | .setBad n => ({ w with bad := n :: w.bad, cache := staleAll w.cache, pend := stalePend w.pend }, .ok)
+  | .clearBad n => ({ w with bad := w.bad.filter (· != n), cache := staleAll w.cache, pend := stalePend w.pend }, .ok)
+  | .setToolB n p => ({ w with serverB := setTool n p w.serverB }, .ok)
+  | .delToolB n => ({ w with serverB := removeTool n w.serverB }, .ok)
+  | .callB n a =>
+    let r := callModelB c w n a
+    (w, .called r.1 r.2)
 
 /-! ## the monitor of the `seq` records -/
 
@@ -221,6 +247,8 @@ structure SeqMon where
   listed : List Bytes      -- names in tools/list results the SERVER gave the client since the table last changed and
                            -- since the last list_changed: for these the client has listed the current definition
   seen : Tools             -- every (name, definition) the client received since the last list_changed (diagnosis only)
+  bad : List Bytes := []   -- names the server lists with invalid annotations
+  serverB : Tools := []    -- the second server's tool table
   pageSize : Nat := 0      -- the server's page size (configuration)
   fresh : Bool := false    -- the client has handled a list_changed since the server's table last changed: its cache was
                            -- emptied after the change, whatever it serves from it now was requested after that
@@ -233,61 +261,44 @@ def hdrsSame (h1 h2 : ParamHdrs) : Bool := h1.all h2.contains && h2.all h1.conta
 /-- `seen` holds this definition of the tool. -/
 def seenDef (seen : Tools) (name : Bytes) (p : Props) : Bool := seen.any (fun e => e.1 == name && e.2 == p)
 
+/-- The page the client must end up with for cursor `k`: the server's, without the tools listed with invalid annotations. -/
+def monPage (m : SeqMon) (k : Bytes) : Tools :=
+  (serverPage m.server m.pageSize k).1.filter (fun t => !m.bad.contains t.1)
+
+/-- `filterValidTools`: a fetched tools/list result handed to the application names no tool listed with invalid annotations. -/
+def badListed (m : SeqMon) (hit : Bool) (tools : Tools) : Option Clause :=
+  if !hit && tools.any (fun t => m.bad.contains t.1) then some .seqBadListed else none
+
+/-- A tool the server lists with invalid annotations, called after the client handled the list_changed that followed the
+last change (so that nothing it knows predates the listing): the client has no usable definition — it sends NO `Mcp-Param-*`
+header — and it still calls: where the server's registered definition demands no header for these arguments, the call goes
+through. -/
+def badCall (c : B64) (m : SeqMon) (n : Bytes) (a : Args) (hdrs : ParamHdrs) (out : CallOut) : Option Clause :=
+  if m.newProto && m.fresh && m.bad.contains n then
+    if !hdrs.isEmpty then some .seqBadMirror
+    else match toolDef m.server n with
+      | some ps =>
+        if toolValidB ps && argsValidB ps a && (generateParamHeaders c ps a).isEmpty && out != .okSame then some .seqBadCall
+        else none
+      | none => none
+  else none
+
 /-- `ListTools` answered from the client's cache (`hit`) after the client handled the list_changed that followed the
 table's last change: the cache was emptied after the change, so what it holds was requested after it — the tools served
 must be the server's. -/
 def staleHit (m : SeqMon) (k : Bytes) (hit : Bool) (tools : Tools) : Option Clause :=
-  if m.newProto && m.fresh && hit && tools != (serverPage m.server m.pageSize k).1 then some .seqStaleList else none
+  if m.newProto && m.fresh && hit && tools != monPage m k then some .seqStaleList else none
 
 /-- … and when they are, the client holds the current definition of every tool of that page although the server was not
 asked: the observer counts them as listed. -/
 def learnHit (m : SeqMon) (k : Bytes) (hit : Bool) (tools : Tools) : SeqMon :=
-  if m.newProto && m.fresh && hit && tools == (serverPage m.server m.pageSize k).1 then
+  if m.newProto && m.fresh && hit && tools == monPage m k then
     { m with listed := toolNames tools ++ m.listed }
   else m
 
-/-- One record: the operation and the IMPLEMENTATION's observation. -/
-def seqMonStep (c : B64) (m : SeqMon) : SeqOp → SeqObs → SeqMon × Option Clause
-  | .setTool n p, _ =>
-    ({ m with server := setTool n p m.server, listed := [], fresh := false, pend := m.pend.map (fun x => (true, x.2)) }, none)
-  | .delTool n, _ =>
-    ({ m with server := removeTool n m.server, listed := [], fresh := false, pend := m.pend.map (fun x => (true, x.2)) }, none)
-  | .ttl _, _ => (m, none)
-  | .adv, _ => (m, none)
-  | .notified, _ => ({ m with listed := [], seen := [], fresh := true, pend := m.pend.map (fun x => (x.1, true)) }, none)
-  | .list k, .listed hit tools _ =>
-    if m.newProto && !hit then ({ m with listed := toolNames tools ++ m.listed, seen := tools ++ m.seen }, none)
-    else (learnHit m k hit tools, staleHit m k hit tools)
-  | .list _, _ => (m, none)
-  | .listSend k, .listed hit tools _ => (learnHit m k hit tools, staleHit m k hit tools)
-  | .listSend _, .sent => (match m.pend with | none => { m with pend := some (false, false) } | some _ => m, none)
-  | .listSend _, _ => (m, none)
-  | .listRecv, .listed _ tools _ =>
-    (match m.pend with
-     | none => (m, none)
-     | some (changed, noted) =>
-       if !m.newProto then ({ m with pend := none }, none)
-       -- requested before a list_changed the client has handled since: the client must not keep it (nothing is learnt)
-       else if noted then ({ m with pend := none }, none)
-       -- answered before the table's last change, no list_changed in between: the client is given an OLD page after
-       -- whatever it listed since — no demand until it lists again
-       else if changed then ({ m with pend := none, listed := [], seen := tools ++ m.seen }, none)
-       else ({ m with pend := none, listed := toolNames tools ++ m.listed, seen := tools ++ m.seen }, none))
-  | .listRecv, _ => (m, none)
-  | .look n, .looked defs =>
-    (m,
-     if m.newProto && m.listed.contains n then
-       match toolDef m.server n with
-       | some ps =>
-         if defs == [some ps] then none
-         else if defs.all (fun d => match d with | some p => seenDef m.seen n p | none => false) then some .seqStaleLook
-         else some .seqLostLook
-       | none => none
-     else none)
-  | .look _, _ => (m, none)
-  | .call n a, .called hdrs out =>
-    (m,
-     match toolDef m.server n with
+/-- The clauses of a `call` record about a tool the client has listed (see `seqMonStep`). -/
+def callClause (c : B64) (m : SeqMon) (n : Bytes) (a : Args) (hdrs : ParamHdrs) (out : CallOut) : Option Clause :=
+  match toolDef m.server n with
      | some ps =>
        if m.newProto then
          if m.listed.contains n && toolValidB ps && argsValidB ps a then
@@ -305,8 +316,76 @@ def seqMonStep (c : B64) (m : SeqMon) : SeqOp → SeqObs → SeqMon × Option Cl
          else (match out with | .notOk _ false => some .e2eReached | _ => none)
        else if out != .okSame then some .seqLegacy
        else none
-     | none => (match out with | .notOk _ false => some .e2eReached | _ => none))
+     | none => (match out with | .notOk _ false => some .e2eReached | _ => none)
+
+/-- What the observer learns when the response of the listing in flight arrives. -/
+def recvMon (m : SeqMon) (tools : Tools) : SeqMon :=
+  match m.pend with
+  | none => m
+  | some (changed, noted) =>
+    if !m.newProto then { m with pend := none }
+    -- requested before a list_changed the client has handled since: the client must not keep it (nothing is learnt)
+    else if noted then { m with pend := none }
+    -- answered before the table's last change, no list_changed in between: the client is given an OLD page after
+    -- whatever it listed since — no demand until it lists again
+    else if changed then { m with pend := none, listed := [], seen := tools ++ m.seen }
+    else { m with pend := none, listed := toolNames tools ++ m.listed, seen := tools ++ m.seen }
+
+/-- One record: the operation and the IMPLEMENTATION's observation. -/
+def seqMonStep (c : B64) (m : SeqMon) : SeqOp → SeqObs → SeqMon × Option Clause
+  | .setTool n p, _ =>
+    ({ m with server := setTool n p m.server, listed := [], fresh := false, pend := m.pend.map (fun x => (true, x.2)) }, none)
+  | .delTool n, _ =>
+    ({ m with server := removeTool n m.server, listed := [], fresh := false, pend := m.pend.map (fun x => (true, x.2)) }, none)
+  | .ttl _, _ => (m, none)
+  | .adv, _ => (m, none)
+  | .notified, _ => ({ m with listed := [], seen := [], fresh := true, pend := m.pend.map (fun x => (x.1, true)) }, none)
+  | .list k, .listed hit tools _ =>
+    if m.newProto && !hit then ({ m with listed := toolNames tools ++ m.listed, seen := tools ++ m.seen }, badListed m hit tools)
+    else (learnHit m k hit tools, (badListed m hit tools).orElse (fun _ => staleHit m k hit tools))
+  | .list _, _ => (m, none)
+  | .listSend k, .listed hit tools _ => (learnHit m k hit tools, staleHit m k hit tools)
+  | .listSend _, .sent => (match m.pend with | none => { m with pend := some (false, false) } | some _ => m, none)
+  | .listSend _, _ => (m, none)
+  | .listRecv, .listed _ tools _ =>
+    (recvMon m tools, match m.pend with | some (false, _) => badListed m false tools | _ => none)
+  | .listRecv, _ => (m, none)
+  | .look n, .looked defs =>
+    (m,
+     if m.newProto && m.listed.contains n then
+       match toolDef m.server n with
+       | some ps =>
+         if defs == [some ps] then none
+         else if defs.all (fun d => match d with | some p => seenDef m.seen n p | none => false) then some .seqStaleLook
+         else some .seqLostLook
+       | none => none
+     else none)
+  | .look _, _ => (m, none)
+  | .call n a, .called hdrs out =>
+    (m, (badCall c m n a hdrs out).orElse (fun _ => callClause c m n a hdrs out))
   | .call _ _, _ => (m, none)
+  | .setBad n, _ =>
+    ({ m with bad := n :: m.bad, listed := [], fresh := false, pend := m.pend.map (fun x => (true, x.2)) }, none)
+  | .clearBad n, _ =>
+    ({ m with bad := m.bad.filter (· != n), listed := [], fresh := false, pend := m.pend.map (fun x => (true, x.2)) }, none)
+  | .setToolB n p, _ => ({ m with serverB := setTool n p m.serverB }, none)
+  | .delToolB n, _ => ({ m with serverB := removeTool n m.serverB }, none)
+  | .callB n a, .called hdrs out =>
+    (m,
+     match toolDef m.serverB n with
+     | some ps =>
+       if m.newProto then
+         if toolValidB ps && argsValidB ps a then
+           (if out != .okSame then
+              -- the client listed THIS server's tools a moment ago: if it sent what this server's definition demands, the
+              -- handler judged the call by another server's tool of that name
+              (if hdrsSame hdrs (generateParamHeaders c ps a) then some .seqOtherServer else some .seqAgree)
+            else genMonitor c ps a hdrs)
+         else (match out with | .notOk _ false => some .e2eReached | _ => none)
+       else if out != .okSame then some .seqLegacy
+       else none
+     | none => (match out with | .notOk _ false => some .e2eReached | _ => none))
+  | .callB _ _, _ => (m, none)
 
 /-! ## runs -/
 
